@@ -89,6 +89,14 @@ impl<D: DataMut> LWESecret<D> {
     }
 }
 
+/// Verification hook (only with `--cfg poulpy_verif`): read-only view of the secret coefficients.
+#[cfg(poulpy_verif)]
+impl<D: Data> LWESecret<D> {
+    pub fn verif_data(&self) -> &ScalarZnx<D> {
+        &self.data
+    }
+}
+
 pub trait LWESecretToRef {
     fn to_ref(&self) -> LWESecret<&[u8]>;
 }
